@@ -37,3 +37,25 @@ def go_test(code, pkg="", run="TestVerif", tags="", timeout=600, race=False, rep
         return r.returncode, r.stdout + r.stderr
     finally:
         shutil.rmtree(tmp, ignore_errors=True)
+
+
+def run_ops(pkg, ops, tags="", repo=None, race=False):
+    """execute a script of operations on the real compiled package via the injected driver;
+    pkg '' (edwards25519) or 'field'.  returns list of result dicts"""
+    from .ir import VERIF
+    drv = os.path.join(VERIF, "godrv", ("field" if pkg == "field" else "ed") + "_driver_test.go")
+    code = open(drv).read()
+    tmp = tempfile.mkdtemp(prefix="verif_ops_")
+    try:
+        opsf = os.path.join(tmp, "ops.json")
+        outf = os.path.join(tmp, "out.json")
+        with open(opsf, "w") as f:
+            json.dump(ops, f)
+        os.environ["VERIF_OPS"] = opsf
+        os.environ["VERIF_OUT"] = outf
+        rc, out = go_test(code, pkg=pkg, run="TestVerifDriver", tags=tags, repo=repo, race=race)
+        if rc != 0 or not os.path.exists(outf):
+            raise RuntimeError("native driver failed (rc=%d):\n%s" % (rc, out[-3000:]))
+        return json.load(open(outf))
+    finally:
+        shutil.rmtree(tmp, ignore_errors=True)
